@@ -6,7 +6,7 @@ use crate::core::Stats;
 use crate::gen::{gen_raw_value, KNOWN_TYPES};
 use crate::refcodec::{self, pad4};
 
-pub const FAULT_KINDS: [&str; 16] = [
+pub const FAULT_KINDS: [&str; 18] = [
     "fault.corrupt_bit",
     "fault.corrupt_byte",
     "fault.burst",
@@ -23,6 +23,8 @@ pub const FAULT_KINDS: [&str; 16] = [
     "fault.insert_after_fingerprint",
     "fault.header_length",
     "fault.header_cookie_or_type",
+    "fault.checksum_preserving_word_tweak",
+    "fault.excess_multiple_of_64k",
 ];
 
 fn set_len(buf: &mut [u8]) {
@@ -58,7 +60,7 @@ pub fn burst(buf: &mut [u8], bit_off: usize, width: usize, pattern: u32) {
 
 /// Apply one fault.  `weights` selects among FAULT_KINDS (same order).  Returns the label of the
 /// fault that fired ("" if it could not apply).
-pub fn apply(ch: &mut Choices, buf: &mut Vec<u8>, next: Option<&[u8]>, weights: &[u32; 16], st: &mut Stats) -> &'static str {
+pub fn apply(ch: &mut Choices, buf: &mut Vec<u8>, next: Option<&[u8]>, weights: &[u32; 18], st: &mut Stats) -> &'static str {
     let k = ch.weighted(weights);
     let n = buf.len();
     let (attrs, _) = if n >= 20 { refcodec::walk(buf, n) } else { (vec![], false) };
@@ -252,6 +254,62 @@ pub fn apply(ch: &mut Choices, buf: &mut Vec<u8>, next: Option<&[u8]>, weights: 
                 }
             }
         }
+        16 => {
+            // damage that weak checksums do not see: consecutive 32-bit words of the body changed by
+            // (+d, -d) [sum-preserving], (+d, -2d, +d) [Fletcher-preserving] or the same bit flipped
+            // in two words [XOR-preserving].  CRC-32 and HMAC see all of them.
+            if n < 20 + 12 {
+                false
+            } else {
+                let words = (n - 20) / 4;
+                let kind = ch.below(3);
+                let span = if kind == 1 { 3 } else { 2 };
+                if words < span {
+                    false
+                } else {
+                    let w0 = ch.below((words - span + 1) as u64) as usize;
+                    let d = if ch.coin() { 1u32 } else { ch.range(1, 0xffff) as u32 };
+                    let rd = |b: &[u8], w: usize| u32::from_be_bytes([b[20 + 4 * w], b[21 + 4 * w], b[22 + 4 * w], b[23 + 4 * w]]);
+                    let wr = |b: &mut [u8], w: usize, v: u32| b[20 + 4 * w..24 + 4 * w].copy_from_slice(&v.to_be_bytes());
+                    match kind {
+                        0 => {
+                            let (a, c) = (rd(buf, w0), rd(buf, w0 + 1));
+                            wr(buf, w0, a.wrapping_add(d));
+                            wr(buf, w0 + 1, c.wrapping_sub(d));
+                        }
+                        1 => {
+                            let (a, c, e) = (rd(buf, w0), rd(buf, w0 + 1), rd(buf, w0 + 2));
+                            wr(buf, w0, a.wrapping_add(d));
+                            wr(buf, w0 + 1, c.wrapping_sub(d.wrapping_mul(2)));
+                            wr(buf, w0 + 2, e.wrapping_add(d));
+                        }
+                        _ => {
+                            let bit = 1u32 << ch.below(32);
+                            let (a, c) = (rd(buf, w0), rd(buf, w0 + 1));
+                            wr(buf, w0, a ^ bit);
+                            wr(buf, w0 + 1, c ^ bit);
+                        }
+                    }
+                    true
+                }
+            }
+        }
+        17 => {
+            // a stream read / jumbo datagram that carries exactly 65536 (or 131072) bytes more than
+            // the message declares: sizes that collide with the declared one in 16-bit arithmetic.
+            // The excess is itself a well-formed run of attributes (what the next messages' bodies
+            // could look like), so that interpreting it would go unnoticed.
+            if n < 20 || n > 5000 {
+                false
+            } else {
+                let k = if ch.rare(1, 4) { 2 } else { 1 };
+                let unit = encode_attr(0x8022, b"xxxx", 0);
+                for _ in 0..(k * 65536 / unit.len()) {
+                    buf.extend_from_slice(&unit);
+                }
+                true
+            }
+        }
         _ => {
             if n < 8 {
                 false
@@ -281,12 +339,12 @@ pub fn apply(ch: &mut Choices, buf: &mut Vec<u8>, next: Option<&[u8]>, weights: 
     }
 }
 
-pub fn weights(profile: &str) -> [u32; 16] {
+pub fn weights(profile: &str) -> [u32; 18] {
     match profile {
         // structure-aware damage dominates
-        "hostile" => [3, 3, 2, 3, 2, 3, 6, 6, 8, 4, 3, 4, 6, 6, 6, 3],
+        "hostile" => [3, 3, 2, 3, 2, 3, 6, 6, 8, 4, 3, 4, 6, 6, 6, 3, 2, 1],
         // plain link noise
-        "noise" => [10, 6, 6, 6, 3, 6, 0, 0, 0, 0, 0, 0, 0, 0, 2, 2],
-        _ => [6, 4, 4, 5, 3, 5, 3, 4, 4, 2, 2, 2, 4, 4, 5, 3],
+        "noise" => [10, 6, 6, 6, 3, 6, 0, 0, 0, 0, 0, 0, 0, 0, 2, 2, 2, 0],
+        _ => [6, 4, 4, 5, 3, 5, 3, 4, 4, 2, 2, 2, 4, 4, 5, 3, 3, 1],
     }
 }
